@@ -11,7 +11,14 @@
             except Crash: pass
         assert fs.crashed            # then "reboot": fresh objects on the left-over directory
 
-What is intercepted (only for paths under `root`; everything else passes through untouched):
+Containment (independent of the code under test, which may be a deliberately broken mutant running
+as root): every intercepted MUTATING call whose absolute, symlink-resolved path is not under `root`
+is REFUSED — it is never executed, it raises `OutsideScratch` (a PermissionError) and is recorded in
+`fs.escapes` and the module-level `ESCAPES` list, which the property modules turn into a violation.
+Read-only opens outside the root pass through.  Harness code therefore runs ALL target code (also
+crash-free phases) inside an unarmed FaultFS ("guard").  `containment_selftest()` proves the refusal.
+
+What is intercepted and counted as crash points (paths under `root`):
 `os.rename/replace/remove/unlink/mkdir/rmdir/truncate/symlink/link/chmod/open`,
 `builtins.open` / `io.open` (hence `os.fdopen` of a descriptor obtained through `os.open`), extra module-level seams given by the caller (modules that bound
 `open`/`rename` at import time, e.g. `dirdbm._open`), and the `write/writelines/flush/close/
@@ -38,6 +45,13 @@ _real_open = builtins.open
 
 class Crash(BaseException):
     """The simulated process died.  BaseException so `except Exception` cannot swallow it."""
+
+
+class OutsideScratch(PermissionError):
+    """A mutating filesystem call aimed outside the scratch root was refused (not executed)."""
+
+
+ESCAPES = []  # (call name, paths) of every refused call, process-wide; property modules report them
 
 
 def partial_lengths(n):
@@ -197,6 +211,7 @@ class FaultFS:
     OS_PATH_CALLS = {  # name -> indices of the path arguments that decide interception
         "rename": (0, 1), "replace": (0, 1), "remove": (0,), "unlink": (0,), "mkdir": (0,),
         "rmdir": (0,), "truncate": (0,), "symlink": (1,), "link": (0, 1), "chmod": (0,),
+        "chown": (0,), "lchown": (0,), "utime": (0,), "mkfifo": (0,), "mknod": (0,),
     }
 
     def __init__(self, root, seams=(), on_call=None):
@@ -213,6 +228,7 @@ class FaultFS:
         self._raw_fds = set()
         self._saved = []
         self._active = False
+        self.escapes = []
 
     def arm(self, k, partial=0):
         self.crash_at = k
@@ -220,16 +236,34 @@ class FaultFS:
         return self
 
     # ---- path filter -------------------------------------------------------------------------
-    def _inside(self, p):
+    def _under(self, p):
+        return p == self.root or p.startswith(self.root + os.sep)
+
+    def _inside(self, p, dir_fd=None):
         if isinstance(p, int):
             return p in self._raw_fds
         try:
             p = os.fsdecode(p)
         except TypeError:
             return False
+        if dir_fd is not None and not os.path.isabs(p):
+            try:
+                p = os.path.join(os.readlink("/proc/self/fd/%d" % dir_fd), p)
+            except OSError:
+                return False
         p = os.path.abspath(p)
-        d = os.path.realpath(os.path.dirname(p))
-        return d == self.root or d.startswith(self.root + os.sep) or p == self.root
+        # the directory is resolved through symlinks; a final component that is itself a symlink
+        # must not lead outside either (open-for-write / chmod / truncate follow it)
+        lex = os.path.join(os.path.realpath(os.path.dirname(p)), os.path.basename(p))
+        if not self._under(lex):
+            return False
+        return not os.path.islink(lex) or self._under(os.path.realpath(lex))
+
+    def _refuse(self, name, paths):
+        rec = (name, tuple(p if isinstance(p, int) else os.fsdecode(p) for p in paths))
+        self.escapes.append(rec)
+        ESCAPES.append(rec)
+        raise OutsideScratch(13, "vf.fsfault: %s%r is outside the scratch root %s: refused, not executed" % (name, rec[1], self.root))
 
     # ---- the crash point -----------------------------------------------------------------------
     def _tick(self, kind, detail, f=None, data=None):
@@ -267,8 +301,12 @@ class FaultFS:
 
         def call(*a, **kw):
             paths = [a[i] for i in idx if i < len(a)]
-            if not paths or not any(self._inside(p) for p in paths):
-                return real(*a, **kw)
+            for key in ("path", "src", "dst"):
+                if key in kw:
+                    paths.append(kw[key])
+            dfd = {0: kw.get("dir_fd", kw.get("src_dir_fd")), 1: kw.get("dst_dir_fd", kw.get("dir_fd"))}
+            if not paths or not all(self._inside(p, dfd.get(n)) for n, p in enumerate(paths)):
+                self._refuse(name, paths)
             self._tick(name, tuple(os.fsdecode(p) if not isinstance(p, int) else p for p in paths))
             return real(*a, **kw)
 
@@ -281,15 +319,17 @@ class FaultFS:
                 if file in self._raw_fds:
                     return self._fdopen(real, file, mode, buffering, *a, **kw)
                 return real(file, mode, buffering, *a, **kw)
+            writing = any(c in mode for c in "wax+")
             if not self._inside(file):
+                if writing:
+                    self._refuse("open:" + mode, [file])
                 return real(file, mode, buffering, *a, **kw)
-            if not any(c in mode for c in "wax+"):
+            if not writing:
                 if self.crashed:
                     raise Crash()
                 return real(file, mode, buffering, *a, **kw)
             path = os.fsdecode(file)
             self._tick("open", (path, mode))
-            # the real file is unbuffered/line-flushed by us: the proxy IS the buffer
             r = real(file, mode, buffering, *a, **kw)
             return _File(self, r, path, buffered=buffering != 0)
 
@@ -304,7 +344,9 @@ class FaultFS:
     def _wrap_os_open(self, real):
         def os_open(path, flags, *a, **kw):
             writing = flags & (os.O_WRONLY | os.O_RDWR | os.O_CREAT | os.O_TRUNC | os.O_APPEND)
-            if kw.get("dir_fd") is not None or not self._inside(path):
+            if not self._inside(path, kw.get("dir_fd")):
+                if writing:
+                    self._refuse("os.open:%#o" % flags, [path])
                 return real(path, flags, *a, **kw)
             if not writing:
                 if self.crashed:
@@ -393,3 +435,70 @@ def restore_tree(path, snap):
         else:
             with _real_open(p, "wb") as fh:
                 fh.write(snap[rel])
+
+
+def containment_selftest():
+    """Deliberately aim mutating calls at a file OUTSIDE the root from inside a FaultFS: every one
+    must be refused without being executed.  -> (ok, number of refusals)"""
+    import shutil
+    import tempfile
+
+    top = os.path.realpath(tempfile.mkdtemp(prefix="vf_selftest_"))
+    try:
+        root = os.path.join(top, "root")
+        outside = os.path.join(top, "outside")
+        os.mkdir(root)
+        os.mkdir(outside)
+        victim = os.path.join(outside, "victim")
+        with _real_open(victim, "wb") as f:
+            f.write(b"intact")
+        os.symlink(victim, os.path.join(root, "link-to-victim"))
+        os.symlink(outside, os.path.join(root, "link-to-dir"))
+        mark = len(ESCAPES)
+        attempts = [
+            lambda: os.remove(victim), lambda: os.unlink(victim), lambda: os.rename(victim, victim + ".x"),
+            lambda: os.rename(os.path.join(root, "a"), victim), lambda: os.replace(victim, os.path.join(root, "stolen")),
+            lambda: os.truncate(victim, 0), lambda: os.chmod(victim, 0), lambda: os.rmdir(outside),
+            lambda: os.mkdir(os.path.join(outside, "newdir")), lambda: open(victim, "wb"), lambda: open(victim, "ab"),
+            lambda: open(victim, "r+b"), lambda: io.open(victim, "w"), lambda: os.open(victim, os.O_WRONLY | os.O_TRUNC),
+            lambda: open(os.path.join(root, "link-to-victim"), "wb"), lambda: os.truncate(os.path.join(root, "link-to-victim"), 0),
+            lambda: os.remove(os.path.join(root, "link-to-dir", "victim")), lambda: open(os.path.join(root, "..", "outside", "victim"), "wb"),
+            lambda: shutil.rmtree(outside), lambda: os.makedirs(os.path.join(outside, "p", "q")),
+        ]
+        refused = 0
+        fs = FaultFS(root)
+        with fs:
+            for att in attempts:
+                try:
+                    att()
+                except OutsideScratch:
+                    refused += 1
+                except OSError:
+                    pass
+            with open(victim, "rb") as f:   # reading outside is allowed
+                ok_read = f.read() == b"intact"
+            open(os.path.join(root, "inside"), "wb").close()  # writing inside is allowed
+        del ESCAPES[mark:]
+        with _real_open(victim, "rb") as f:
+            intact = f.read() == b"intact"
+        ok = (intact and ok_read and refused == len(attempts) and sorted(os.listdir(outside)) == ["victim"]
+              and os.path.exists(os.path.join(root, "inside")) and (os.stat(victim).st_mode & 0o777) != 0)
+        return ok, refused
+    finally:
+        shutil.rmtree(top, ignore_errors=True)
+
+
+def report_escapes(ctx, witness=None):
+    """Turn refused out-of-scratch calls (since the last report) into a violation of the run."""
+    if ESCAPES:
+        ctx.violation("filesystem-call-outside-scratch", "the code under test aimed a mutating filesystem call outside the scratch directory (refused, not executed)",
+                      {"refused_calls": list(ESCAPES[:10]), "case": witness})
+        del ESCAPES[:]
+
+
+def selftest_or_inconclusive(ctx):
+    ok, refused = containment_selftest()
+    ctx.count("containment_selftest_refusals", refused)
+    if not ok:
+        ctx.inconclusive("fsfault containment self-test failed: refusing to run target code")
+    return ok
